@@ -1329,7 +1329,8 @@ def main(ck):
 
     bad = ck.eval_cases("cases", HEADER, terms, "check_case", shard=60)
     names = {1: "ImplSem (model) vs implementation", 2: "RefSem (spec) vs implementation — impl_refines_ref",
-             3: "generated program is not wf", 4: "clean-fragment classification differs", 5: "model out of fuel"}
+             3: "generated program is not wf", 4: "clean-fragment classification differs", 5: "model out of fuel",
+             6: "a function's variable table does not cover its body"}
     for j, cls in sorted(bad.items()):
         i = idxmap[j]
         pr, cl, dkey, fam = cases[i]
@@ -1341,7 +1342,7 @@ def main(ck):
             cls = [x for x in cls if x not in (3, 4)]      # not wf by construction (see escape_programs)
             if not cls:
                 continue
-        if 3 in cls or 4 in cls or 5 in cls:
+        if 3 in cls or 4 in cls or 5 in cls or 6 in cls:
             ck.broken.append("generator:" + ",".join(str(x) for x in cls))
             ck.violation("generator:%s" % fam, replay)
             continue
